@@ -1,6 +1,7 @@
 package props
 
 import (
+	"strings"
 	"bytes"
 	"fmt"
 	"sort"
@@ -127,10 +128,21 @@ func TestC14(t *testing.T) {
 				add("garbage-data/"+lc, "linkmap", g, true, ls, names, "undecodable Data")
 				// structurally malformed protobuf that also the reference decoder refuses: cut short
 				// (incl. a packed blocksizes run ending inside a varint) or with an over-long varint
-				for k := 0; k < 6; k++ {
+				for k := 0; k < 9; k++ {
 					var bad []byte
 					why := ""
 					switch k {
+					case 6, 7, 8:
+						// a field numbered 0, which protobuf does not have: well-formed around it, illegal all the same
+						m := msgFor(uint64(1+rr.Intn(5)), rr.Intn(128), rr.Intn(40))
+						enc := gen.Encode(rr, m, gen.Pres{Kind: "ordered"})
+						zero := [][]byte{{0x00, 0x00}, {0x02, 0x01, 'x'}, {0x05, 1, 2, 3, 4}}[k-6]
+						if k == 7 {
+							bad = append(append([]byte(nil), zero...), enc...)
+						} else {
+							bad = append(append([]byte(nil), enc...), zero...)
+						}
+						why = "a field with number 0"
 					case 0:
 						bad, why = []byte{0x08, 0x02, 0x22, 0x02, 0x05, 0x80}, "packed blocksizes run ending inside a varint"
 					case 1:
@@ -354,6 +366,7 @@ func TestC14(t *testing.T) {
 			}
 			// ---- run every input through the three reification variants ----
 			ls := st.LinkSystem(true)
+			lsNR := st.LinkSystemCfg(true, false, true)
 			variants := []struct {
 				name string
 				f    func(n ipld.Node) (ipld.Node, error)
@@ -364,6 +377,10 @@ func TestC14(t *testing.T) {
 				}},
 				{"unixfs-preload", func(n ipld.Node) (ipld.Node, error) {
 					return ls.KnownReifiers["unixfs-preload"](ipld.LinkContext{Ctx: bg}, n, ls)
+				}},
+				// the preloading view through a link system that also reifies every block it loads
+				{"unixfs-preload+NodeReifier", func(n ipld.Node) (ipld.Node, error) {
+					return lsNR.KnownReifiers["unixfs-preload"](ipld.LinkContext{Ctx: bg}, n, lsNR)
 				}},
 				// lazy reification needs no block beyond the node it is given: no link system, same answer
 				{"Reify-without-linksystem", func(n ipld.Node) (ipld.Node, error) {
@@ -387,7 +404,7 @@ func TestC14(t *testing.T) {
 						}
 						continue
 					case "map-lazy-error-preload":
-						if v.name == "unixfs-preload" {
+						if strings.HasPrefix(v.name, "unixfs-preload") {
 							if err == nil {
 								c.Violation("C14|invalid-accepted|"+v.name, "%s of %s (%s) returned a %T node and no error although it reifies the whole directory", v.name, in.Class, in.Why, out)
 							}
